@@ -62,7 +62,8 @@ def cases(tier, seed):
     # bare IPv6 literals whose last group(s) look like a port: without brackets the whole string is the host
     for j, h in enumerate(['fe80::1:22', '2001:db8::2:1', '::ffff:0:8080', '2001:db8::a:2222', '2001:db8:0:0:0:0:7:22', '1::2:3:4:5:6:6553', '::22', '::1:2222',
                            '::ffff:192.0.2.7', '64:ff9b::192.0.2.33', '0:0:0:0:0:ffff:192.0.2.7', '2001:DB8::A1', 'FE80::DEAD:BEEF', '::FFFF:192.0.2.9',
-                           '2001:db8:0:1::', 'fd00:1:2::', '2001:22::', 'fe80::']):   # ... and addresses whose trailing groups are zero (the text ends in "::")   # then IPv6 written with an embedded dotted quad, and with upper-case hex digits
+                           '2001:db8:0:1::', 'fd00:1:2::', '2001:22::', 'fe80::',
+                           'fe80::1%eth0', 'fe80::2:22%3', 'fe80::dead:beef%wlan0.5']):   # ... and link-local addresses with a zone id (RFC 4007: "%" then an interface name or index), bare and in brackets   # ... and addresses whose trailing groups are zero (the text ends in "::")   # then IPv6 written with an embedded dotted quad, and with upper-case hex digits
         for spelling, port in (('plain', 22), ('p-option', 2222), ('p-option', 22), ('hostport', 8022), ('both', 8022)):
             for place in ('cmdline', 'file'):
                 n += 1
